@@ -1,6 +1,6 @@
 import FlytModel.Generated.IR
 import FlytModel.Expected.IR
-/-! The translation of `BaseNode_Exec` from the CURRENT source is, term for term, the IR the refinement theorems are about. -/
+/-! The translation of `BaseNode_Exec` from the CURRENT source is, term for term, the expected IR. -/
 namespace Flyt.Tie
 theorem BaseNode_Exec : Flyt.Generated.IR.BaseNode_Exec = Flyt.Expected.IR.BaseNode_Exec := rfl
 end Flyt.Tie
